@@ -12,6 +12,7 @@ import (
 	"os"
 	"path/filepath"
 	"sort"
+	"sync"
 	"testing"
 
 	"github.com/B1NARY-GR0UP/originium"
@@ -37,6 +38,7 @@ type lvCase struct {
 	Keys     []vlib.Str `json:"keys"`
 	Absent   []vlib.Str `json:"absent"`
 	Ops      []lvOp     `json:"ops"`
+	VerBase  uint64     `json:"version_base"` // every version is offset by this (timestamps far from zero)
 }
 
 func toEntries(b []vlib.E) []types.Entry {
@@ -59,21 +61,26 @@ func genLvCase(t *rapid.T, withCompaction bool) lvCase {
 	nk := rapid.IntRange(2, 8).Draw(t, "nkeys")
 	seen := map[string]bool{}
 	for len(c.Keys) < nk {
-		k := rapid.SampledFrom(vlib.Pool[:40]).Draw(t, "key")
+		k := rapid.SampledFrom(vlib.Pool).Draw(t, "key")
 		if !seen[k] {
 			seen[k] = true
 			c.Keys = append(c.Keys, vlib.Str(k))
+			if sib, ok := vlib.Sibling[k]; ok && !seen[sib] && len(c.Keys) < nk && rapid.Bool().Draw(t, "sibling") {
+				seen[sib] = true
+				c.Keys = append(c.Keys, vlib.Str(sib))
+			}
 		}
 	}
 	for i := 0; i < 3; i++ {
-		k := rapid.SampledFrom(vlib.Pool[:40]).Draw(t, "absent")
+		k := rapid.SampledFrom(vlib.Pool).Draw(t, "absent")
 		if !seen[k] {
 			seen[k] = true
 			c.Absent = append(c.Absent, vlib.Str(k))
 		}
 	}
+	c.VerBase = rapid.SampledFrom([]uint64{0, 0, 0, 8, 98, 1<<31 - 3, 1<<32 - 2, 1<<53 - 1, 1<<62 + 5}).Draw(t, "verBase")
 	used := map[string]bool{}
-	var hi uint64 // versions of later batches are >= versions of earlier ones
+	hi := c.VerBase // versions of later batches are >= versions of earlier ones
 	nflush := 0
 	nops := rapid.IntRange(2, 20).Draw(t, "nops")
 	for i := 0; i < nops; i++ {
@@ -88,8 +95,8 @@ func genLvCase(t *rapid.T, withCompaction bool) lvCase {
 		switch o.Op {
 		case "flush":
 			lo := hi
-			if lo == 0 {
-				lo = 1
+			if lo == c.VerBase {
+				lo = c.VerBase + 1
 			}
 			if rapid.IntRange(0, 2).Draw(t, "straddle") != 0 && nflush > 0 {
 				lo = hi + 1 // usually a batch starts above the previous one, sometimes it shares its first timestamp
@@ -130,7 +137,7 @@ func genLvCase(t *rapid.T, withCompaction bool) lvCase {
 		case "reflush":
 			o.Ref = rapid.IntRange(0, 100).Draw(t, "ref")
 		case "wm":
-			o.W = uint64(rapid.IntRange(0, int(hi)+2).Draw(t, "w"))
+			o.W = c.VerBase + uint64(rapid.IntRange(0, int(hi-c.VerBase)+2).Draw(t, "w"))
 		}
 		c.Ops = append(c.Ops, o)
 	}
@@ -223,6 +230,9 @@ func runLv(c lvCase, dir string, mode string) (res lvResult) {
 			ok bool
 		}{}
 		for _, k := range allKeys {
+			if from+1 < c.VerBase {
+				from = c.VerBase - 1 // nothing is stored below the base: one probe below it is enough
+			}
 			for ts := from; ts <= st.maxTs+1; ts++ {
 				e, ok := st.v.Lookup(string(k), ts)
 				out[vlib.VKey(string(k), ts)] = struct {
@@ -260,7 +270,11 @@ func runLv(c lvCase, dir string, mode string) (res lvResult) {
 			}
 		}
 		for _, k := range allKeys {
-			for ts := uint64(0); ts <= st.maxTs+1; ts++ {
+			ts0 := uint64(0)
+			if c.VerBase > 1 {
+				ts0 = c.VerBase - 1
+			}
+			for ts := ts0; ts <= st.maxTs+1; ts++ {
 				e, ok := st.v.Lookup(string(k), ts)
 				r, rok := vlib.Best(phys, string(k), ts)
 				if !eqExact(e, ok, r, rok) {
@@ -533,7 +547,54 @@ func lvTest(t *testing.T, prop, test, mode string, withCompaction bool) {
 	})
 }
 
-func TestC10(t *testing.T)       { lvTest(t, "C10", "TestC10", "C10", true) }
+func TestC10(t *testing.T) { lvTest(t, "C10", "TestC10", "C10", true) }
+
+// TestC10Twin runs two independent stores in the same process at the same time (two goroutines,
+// two directories): whatever the tables of one store hold must be found whatever the other does.
+func TestC10Twin(t *testing.T) {
+	rec := vlib.For("C10", "TestC10Twin")
+	base := scratchDir(t)
+	type twin struct {
+		A lvCase `json:"a"`
+		B lvCase `json:"b"`
+	}
+	one := func(tw twin, cj []byte, fatal func(string, ...any)) {
+		rec.Begin(cj)
+		var ra, rb lvResult
+		var wg sync.WaitGroup
+		wg.Add(2)
+		go func() { defer wg.Done(); ra = runLv(tw.A, base+"-twinA", "C10") }()
+		go func() { defer wg.Done(); rb = runLv(tw.B, base+"-twinB", "C10") }()
+		wg.Wait()
+		bad := ra
+		if bad.kind != "C10" {
+			bad = rb
+		}
+		rec.End(cj, bad.kind == "" && (ra.classes["ge2_tables"] || rb.classes["ge2_tables"]), "two_stores_in_one_process")
+		if bad.kind == "C10" {
+			kind := "lookup_vs_bruteforce"
+			if bad.panicked {
+				kind = "panic_in_levels"
+			}
+			rec.Violation(kind, "with a second store active in the same process: "+bad.msg, cj, nil)
+			fatal("%s", bad.msg)
+		}
+	}
+	if rc := vlib.ReplayCase(); rc != nil {
+		var tw twin
+		if err := json.Unmarshal(rc, &tw); err != nil {
+			t.Fatalf("bad replay case: %v", err)
+		}
+		for i := 0; i < 20; i++ {
+			one(tw, rc, t.Fatalf)
+		}
+		return
+	}
+	rapid.Check(t, func(rt *rapid.T) {
+		tw := twin{A: genLvCase(rt, true), B: genLvCase(rt, true)}
+		one(tw, vlib.JSON(tw), rt.Fatalf)
+	})
+}
 func TestC09(t *testing.T)       { lvTest(t, "C09", "TestC09", "C09", true) }
 func TestC16Levels(t *testing.T) { lvTest(t, "C16", "TestC16Levels", "C10", false) }
 
